@@ -12,6 +12,9 @@ def run(ctx):
     caps = ctx.pick([1], [0, 1])
     for cap in caps:
         ctx.tlc_mc("server", "WorkerPoolMC", "WorkerPoolMC.cfg", consts={"CAP": cap}, workers=8, timeout=1200)
+    # safety under Stop/Start cycles (thorough: the restart spec is about 2x the base state space)
+    if ctx.tier == "thorough":
+        ctx.tlc_mc("server", "WorkerPoolMC", "WorkerPoolMCR.cfg", consts={"CAP": 1}, workers=8, timeout=1800)
     ntr = ctx.pick(60, 600)
     cfgs = ctx.pick([(2, 1), (1, 1), (3, 0)], [(1, 1), (2, 1), (3, 1), (1, 0), (2, 0), (3, 0)])
     for maxw, cap in cfgs:
